@@ -274,6 +274,78 @@ def s3_cases(tier: str, n: grammar.Names) -> list[tuple[tuple, dict[str, Any]]]:
     return cases
 
 
+# ------------------------------------------------------------------ S7 tables and filters on both sides of a scope
+
+
+def _trees(nodes: int) -> list[list]:
+    """Every ordered tree with exactly `nodes` array nodes, as nested lists [label, child, child, ...]."""
+    memo: dict[int, list] = {}
+
+    def forests(k: int) -> list[list]:  # ordered forests with k nodes in total
+        if k == 0:
+            return [[]]
+        if k in memo:
+            return memo[k]
+        out = []
+        for first in range(1, k + 1):  # size of the first tree
+            for kids in forests(first - 1):
+                for rest in forests(k - first):
+                    out.append([kids] + rest)
+        memo[k] = out
+        return out
+
+    counter = [0]
+
+    def label(kids_forest: list) -> list:
+        counter[0] += 1
+        me = [counter[0]]
+        for kf in kids_forest:
+            me.append(label(kf))
+        return me
+
+    res = []
+    for f in forests(nodes - 1):
+        counter[0] = 0
+        res.append(label(f))
+    return res
+
+
+def s7_cases(tier: str, n: grammar.Names) -> list[tuple[tuple, dict[str, Any]]]:
+    cases: list[tuple[tuple, dict[str, Any]]] = []
+    x = ("var", "x", ())
+    lam_id = ("lambda", ("x",), x)
+    chains = [
+        (flt("join", S(",")),), (flt("reverse"), flt("join", S(","))), (flt("compact"), flt("size")), (flt("map", lam_id), flt("join", S(","))),
+        (flt("concat", V("one")), flt("size")), (flt("where", lam_id), flt("size")), (flt("reverse"), flt("first")), (flt("find", ("lambda", ("x",), ("cmp", "==", x, V("last")))),),
+    ]
+    # every shape of nested arrays with up to 8 (quick) / 9 arrays in total: what a sequence filter sees is the
+    # flattened table, however many rows it has and wherever they nest (down to the documented depth)
+    for k in range(1, (8 if tier == "quick" else 9) + 1):
+        for t in _trees(k):
+            for ch in chains:
+                cases.append(((("out", FL(V("t"), *ch)),), {"t": t, "one": [[0]], "last": k}))
+    # one filter name used on both sides of a scope boundary with a lambda that reads a FREE name: the name means what
+    # it means where the lambda is written
+    for name, tail in (("map", (flt("join", S(",")),)), ("where", (flt("size"),)), ("find", ())):
+        def use(free: str) -> tuple:
+            body = V(free) if name == "map" else ("cmp", "==", x, V(free))
+            return ("out", FL(V("arr"), flt(name, ("lambda", ("x",), body)), *tail))
+
+        T = ("text", "|")
+        macro = ("macro", "mm", (("w", None),), (use("w"), T, use("g")))
+        for order in range(4):
+            if order == 0:
+                prog = (use("g"), T, macro, ("call", "mm", (I(2),), ()), T, use("g"))
+            elif order == 1:
+                prog = (macro, ("call", "mm", (I(2),), ()), T, use("g"), T, ("call", "mm", (I(3),), ()))
+            elif order == 2:
+                prog = (("assign", "w", I(3)), use("w"), T, macro, ("call", "mm", (I(2),), ()), T, use("w"))
+            else:
+                prog = (use("g"), T, ("with", (("g", I(2)),), (use("g"),)), T, ("for", "g", V("arr"), (), (use("g"),), None), T, use("g"))
+            cases.append((prog, {"arr": [1, 2, 3, 2], "g": 1}))
+    return cases
+
+
 # ------------------------------------------------------------------ S4 BFS
 
 
@@ -380,6 +452,7 @@ def _flat_spaces(tier: str, seed: int) -> dict[str, list]:
         "S2": s2_cases(tier, n),
         "S3": s3_cases(tier, n),
         "K": k_cases(tier),
+        "S7": s7_cases(tier, n),
     }
     # S5: blocks over block bodies (construct in construct)
     l2 = grammar.blocks(n, [(s,) for s in l1s[:: (3 if tier == "quick" else 1)]])
@@ -406,7 +479,7 @@ def plan(tier: str, seed: int):
     shards: list[Any] = []
     total = 0
     for name, cases in sp.items():
-        per = {"S1": 2000, "S2": 800, "S3": 300, "S5": 200, "S6": 300, "K": 40}[name]
+        per = {"S1": 2000, "S2": 800, "S3": 300, "S5": 200, "S6": 300, "K": 40, "S7": 400}[name]
         for lo, hi in chunks(len(cases), max(1, len(cases) // per)):
             shards.append((name, tier, seed, lo, hi))
         total += len(cases)
